@@ -131,9 +131,7 @@ func (g *Generator) ListTypes() []string {
 						continue
 					}
 
-					kind := basic.Kind()
-					if kind != types.Int && kind != types.Uint &&
-						kind != types.Int32 && kind != types.Uint32 {
+					if basic.Info()&types.IsInteger == 0 {
 						continue
 					}
 
